@@ -1,0 +1,1090 @@
+//! Verification harness (test-only; see /verif).
+//!
+//! Executes a line-oriented op script (file named by env `VERIF_IN`) against the real code of
+//! `block_verifier`, `convert`, `verify` and `reconstruct`, and writes canonical observation
+//! lines to the file named by env `VERIF_OUT`. With `VERIF_IN` unset the test is a no-op.
+//!
+//! The harness only observes: it never "repairs" the behaviour of the code under test.
+#![allow(
+    clippy::pedantic,
+    clippy::arithmetic_side_effects,
+    reason = "test-only verification harness"
+)]
+
+use std::{
+    collections::{
+        BTreeMap,
+        HashMap,
+    },
+    io::Write as _,
+    panic::AssertUnwindSafe,
+    sync::{
+        atomic::{
+            AtomicUsize,
+            Ordering,
+        },
+        Arc,
+        Mutex,
+    },
+    time::Duration,
+};
+
+use astria_core::{
+    brotli::compress_bytes,
+    crypto::SigningKey,
+    generated::astria::sequencerblock::v1::{
+        SubmittedMetadata as RawSubmittedMetadata,
+        SubmittedMetadataList,
+        SubmittedRollupData as RawSubmittedRollupData,
+        SubmittedRollupDataList,
+    },
+    primitive::v1::RollupId,
+    protocol::test_utils::ConfigureSequencerBlock,
+    sequencerblock::v1::block,
+};
+use bytes::Bytes;
+use celestia_types::{
+    nmt::Namespace,
+    Blob,
+};
+use futures::FutureExt as _;
+use prost::Message as _;
+use sequencer_client::{
+    tendermint::{
+        self,
+        block::CommitSig,
+    },
+    tendermint_proto,
+    tendermint_rpc::endpoint::{
+        commit,
+        validators,
+    },
+    HttpClient as SequencerClient,
+};
+use sha2::{
+    Digest as _,
+    Sha256,
+};
+
+use super::{
+    block_verifier::ensure_commit_has_quorum,
+    convert::decode_raw_blobs,
+    fetch::RawBlobs,
+    reconstruct::reconstruct_blocks_from_verified_blobs,
+    verify::{
+        verify_metadata,
+        BlobVerifier,
+    },
+};
+
+/// Number of panics observed by the (silent) panic hook. Used to surface panics that were
+/// swallowed by spawned tasks (tokio turns them into `JoinError`s which the code under test
+/// logs and ignores).
+static PANICS: AtomicUsize = AtomicUsize::new(0);
+
+/// Upper bound for a single `pipeline` op. The mock answers every request with HTTP 200, so the
+/// retry loops of the code under test are never triggered; this is a safety net only.
+const PIPELINE_TIMEOUT: Duration = Duration::from_secs(60);
+
+const DEFAULT_CHAIN: &str = "test";
+const OTHER_CHAIN: &str = "other-chain";
+const CELESTIA_HEIGHT: u64 = 1;
+
+type HarnessResult = Result<(), String>;
+
+/// Output sink. Lines are appended (and flushed) immediately so that partial output of an op
+/// that later panics is retained.
+struct Out {
+    file: Mutex<std::fs::File>,
+}
+
+impl Out {
+    fn line(&self, s: impl AsRef<str>) {
+        let mut f = self.file.lock().unwrap_or_else(std::sync::PoisonError::into_inner);
+        let _ = writeln!(f, "{}", s.as_ref());
+        let _ = f.flush();
+    }
+}
+
+/// What the mock CometBFT node knows about one height: the JSON `result` objects of the
+/// `commit` and `validators` JSON-RPC endpoints.
+#[derive(Clone)]
+struct MockHeight {
+    commit: serde_json::Value,
+    validators: serde_json::Value,
+}
+
+type MockTable = Arc<Mutex<HashMap<u64, MockHeight>>>;
+
+struct BlockInfo {
+    hash: [u8; 32],
+    metadata: RawSubmittedMetadata,
+    /// keyed by the rollup id bytes
+    rollup_data: BTreeMap<[u8; 32], RawSubmittedRollupData>,
+}
+
+struct Case {
+    server: wiremock::MockServer,
+    table: MockTable,
+    blocks: BTreeMap<u64, BlockInfo>,
+    /// chain id of the first `seqblock`/`seqcommit` op of the case
+    chain: Option<String>,
+}
+
+impl Case {
+    async fn new() -> Self {
+        let server = wiremock::MockServer::start().await;
+        let table: MockTable = Arc::new(Mutex::new(HashMap::new()));
+        mount_cometbft(&server, table.clone()).await;
+        Self {
+            server,
+            table,
+            blocks: BTreeMap::new(),
+            chain: None,
+        }
+    }
+}
+
+/// Mounts one catch-all mock that emulates the `commit` and `validators` JSON-RPC endpoints of
+/// CometBFT from `table`. Unknown heights / methods are answered with a JSON-RPC error object
+/// (HTTP 200), like a real node does for heights it does not have; the client of the code under
+/// test does not retry those.
+async fn mount_cometbft(server: &wiremock::MockServer, table: MockTable) {
+    use wiremock::{
+        matchers::any,
+        Mock,
+        Request,
+        ResponseTemplate,
+    };
+    Mock::given(any())
+        .respond_with(move |request: &Request| {
+            let body: serde_json::Value =
+                serde_json::from_slice(&request.body).unwrap_or(serde_json::Value::Null);
+            let id = body.get("id").cloned().unwrap_or(serde_json::Value::Null);
+            let method = body.get("method").and_then(|m| m.as_str()).unwrap_or("");
+            let height = body
+                .get("params")
+                .and_then(|p| p.get("height"))
+                .and_then(|h| match h {
+                    serde_json::Value::String(s) => s.parse::<u64>().ok(),
+                    serde_json::Value::Number(n) => n.as_u64(),
+                    _ => None,
+                });
+            let entry = height.and_then(|h| {
+                table
+                    .lock()
+                    .unwrap_or_else(std::sync::PoisonError::into_inner)
+                    .get(&h)
+                    .cloned()
+            });
+            let result = match (method, entry) {
+                ("commit", Some(e)) => Some(e.commit),
+                ("validators", Some(e)) => Some(e.validators),
+                _ => None,
+            };
+            let response = match result {
+                Some(result) => serde_json::json!({
+                    "jsonrpc": "2.0",
+                    "id": id,
+                    "result": result,
+                }),
+                None => serde_json::json!({
+                    "jsonrpc": "2.0",
+                    "id": id,
+                    "error": {
+                        "code": -32603,
+                        "message": "Internal error",
+                        "data": "height is not available in the verif mock",
+                    },
+                }),
+            };
+            ResponseTemplate::new(200).set_body_json(response)
+        })
+        .mount(server)
+        .await;
+}
+
+// ---------------------------------------------------------------------------------------------
+// parsing helpers
+// ---------------------------------------------------------------------------------------------
+
+struct Args<'a> {
+    kv: Vec<(&'a str, &'a str)>,
+}
+
+impl<'a> Args<'a> {
+    fn parse(rest: &'a str) -> Result<Self, String> {
+        let mut kv = Vec::new();
+        for tok in rest.split_whitespace() {
+            let (k, v) = tok
+                .split_once('=')
+                .ok_or_else(|| format!("bad-arg:{tok}"))?;
+            kv.push((k, v));
+        }
+        Ok(Self {
+            kv,
+        })
+    }
+
+    fn opt(&self, key: &str) -> Option<&'a str> {
+        self.kv.iter().find(|(k, _)| *k == key).map(|(_, v)| *v)
+    }
+
+    fn get(&self, key: &str) -> Result<&'a str, String> {
+        self.opt(key).ok_or_else(|| format!("missing-arg:{key}"))
+    }
+
+    fn num<T: std::str::FromStr>(&self, key: &str) -> Result<T, String> {
+        let v = self.get(key)?;
+        v.parse::<T>().map_err(|_| format!("bad-number:{key}={v}"))
+    }
+}
+
+fn parse_byte(s: &str) -> Result<u8, String> {
+    if let Some(hex) = s.strip_prefix("0x") {
+        u8::from_str_radix(hex, 16).map_err(|_| format!("bad-byte:{s}"))
+    } else {
+        s.parse::<u8>().map_err(|_| format!("bad-byte:{s}"))
+    }
+}
+
+fn parse_rollup(s: &str) -> Result<RollupId, String> {
+    let n = s
+        .strip_prefix('r')
+        .ok_or_else(|| format!("bad-rollup:{s}"))?;
+    let n = n.parse::<u8>().map_err(|_| format!("bad-rollup:{s}"))?;
+    Ok(RollupId::new([n; 32]))
+}
+
+fn parse_list(s: &str) -> Vec<&str> {
+    if s.is_empty() || s == "-" {
+        vec![]
+    } else {
+        s.split(',').collect()
+    }
+}
+
+fn parse_powers(s: &str) -> Result<Vec<u64>, String> {
+    parse_list(s)
+        .into_iter()
+        .map(|p| p.parse::<u64>().map_err(|_| format!("bad-power:{p}")))
+        .collect()
+}
+
+#[derive(Clone, Copy)]
+enum Who {
+    Index(u32),
+    Unknown,
+}
+
+#[derive(Clone, Copy)]
+struct SigEntry {
+    who: Who,
+    kind: char,
+}
+
+fn parse_sigs(s: &str) -> Result<Vec<SigEntry>, String> {
+    parse_list(s)
+        .into_iter()
+        .map(|e| {
+            let kind = e.chars().last().ok_or_else(|| format!("bad-sig:{e}"))?;
+            if !"ganfewc".contains(kind) {
+                return Err(format!("bad-sig-kind:{e}"));
+            }
+            let who = &e[..e.len() - kind.len_utf8()];
+            let who = if who == "x" {
+                Who::Unknown
+            } else {
+                Who::Index(who.parse::<u32>().map_err(|_| format!("bad-sig:{e}"))?)
+            };
+            Ok(SigEntry {
+                who,
+                kind,
+            })
+        })
+        .collect()
+}
+
+// ---------------------------------------------------------------------------------------------
+// entities
+// ---------------------------------------------------------------------------------------------
+
+fn validator_key(who: Who) -> SigningKey {
+    match who {
+        Who::Index(i) => SigningKey::from([(i as u8).wrapping_add(1); 32]),
+        Who::Unknown => SigningKey::from([0xEE; 32]),
+    }
+}
+
+fn forger_key(who: Who) -> SigningKey {
+    match who {
+        Who::Index(i) => SigningKey::from([(i as u8).wrapping_add(100); 32]),
+        Who::Unknown => SigningKey::from([0xEF; 32]),
+    }
+}
+
+fn tm_pub_key(key: &SigningKey) -> tendermint::PublicKey {
+    tendermint::PublicKey::from_raw_ed25519(key.verification_key().as_ref()).unwrap()
+}
+
+fn tm_address(key: &SigningKey) -> tendermint::account::Id {
+    tendermint::account::Id::from(tm_pub_key(key))
+}
+
+fn make_validator_set(height: u32, powers: &[u64]) -> Result<validators::Response, String> {
+    if let Some(p) = powers.iter().find(|p| i64::try_from(**p).is_err()) {
+        return Err(format!("bad-power:{p}"));
+    }
+    let vals = powers
+        .iter()
+        .enumerate()
+        .map(|(i, p)| {
+            let key = validator_key(Who::Index(u32::try_from(i).unwrap()));
+            let pub_key = tm_pub_key(&key);
+            tendermint::validator::Info {
+                address: tendermint::account::Id::from(pub_key),
+                pub_key,
+                power: tendermint::vote::Power::try_from(*p).unwrap(),
+                proposer_priority: 0.into(),
+                name: None,
+            }
+        })
+        .collect::<Vec<_>>();
+    let n = i32::try_from(vals.len()).unwrap();
+    Ok(validators::Response::new(height.into(), vals, n))
+}
+
+fn block_id(hash: [u8; 32]) -> tendermint::block::Id {
+    tendermint::block::Id {
+        hash: tendermint::Hash::Sha256(hash),
+        ..Default::default()
+    }
+}
+
+fn sign_vote(
+    key: &SigningKey,
+    height: u32,
+    hash: [u8; 32],
+    chain: &str,
+    timestamp: tendermint::Time,
+) -> tendermint::Signature {
+    let canonical_vote = tendermint::vote::CanonicalVote {
+        vote_type: tendermint::vote::Type::Precommit,
+        height: height.into(),
+        round: 0u16.into(),
+        block_id: Some(block_id(hash)),
+        timestamp: Some(timestamp),
+        chain_id: chain.try_into().unwrap(),
+    };
+    let message = tendermint_proto::types::CanonicalVote::from(canonical_vote)
+        .encode_length_delimited_to_vec();
+    let signature = key.sign(&message);
+    signature.to_bytes().as_ref().try_into().unwrap()
+}
+
+/// Timestamp used for everything that travels through the mock JSON-RPC server.
+///
+/// The unix epoch cannot be used there: tendermint's JSON (de)serializers treat a timestamp that
+/// equals the protobuf default (0s, 0ns) as "not set", so a commit whose votes are timestamped
+/// with the unix epoch fails to deserialize on the client ("missing timestamp field").
+fn wire_timestamp() -> tendermint::Time {
+    tendermint::Time::from_unix_timestamp(1, 1).unwrap()
+}
+
+fn make_commit(
+    height: u32,
+    hash: [u8; 32],
+    chain: &str,
+    sigs: &[SigEntry],
+    timestamp: tendermint::Time,
+) -> tendermint::block::Commit {
+    let signatures = sigs
+        .iter()
+        .map(|entry| {
+            let key = validator_key(entry.who);
+            let validator_address = tm_address(&key);
+            match entry.kind {
+                'g' => CommitSig::BlockIdFlagCommit {
+                    validator_address,
+                    timestamp,
+                    signature: Some(sign_vote(&key, height, hash, chain, timestamp)),
+                },
+                'a' => CommitSig::BlockIdFlagAbsent,
+                'n' => CommitSig::BlockIdFlagNil {
+                    validator_address,
+                    timestamp,
+                    signature: Some(sign_vote(&key, height, hash, chain, timestamp)),
+                },
+                'f' => CommitSig::BlockIdFlagCommit {
+                    validator_address,
+                    timestamp,
+                    signature: Some(sign_vote(
+                        &forger_key(entry.who),
+                        height,
+                        hash,
+                        chain,
+                        timestamp,
+                    )),
+                },
+                'e' => CommitSig::BlockIdFlagCommit {
+                    validator_address,
+                    timestamp,
+                    signature: None,
+                },
+                'w' => CommitSig::BlockIdFlagCommit {
+                    validator_address,
+                    timestamp,
+                    signature: Some(sign_vote(&key, height, [8; 32], chain, timestamp)),
+                },
+                'c' => CommitSig::BlockIdFlagCommit {
+                    validator_address,
+                    timestamp,
+                    signature: Some(sign_vote(&key, height, hash, OTHER_CHAIN, timestamp)),
+                },
+                other => unreachable!("sig kind `{other}` rejected by the parser"),
+            }
+        })
+        .collect();
+    tendermint::block::Commit {
+        height: height.into(),
+        round: 0u16.into(),
+        block_id: block_id(hash),
+        signatures,
+    }
+}
+
+fn make_signed_header(
+    height: u32,
+    chain: &str,
+    commit: tendermint::block::Commit,
+) -> tendermint::block::signed_header::SignedHeader {
+    tendermint::block::signed_header::SignedHeader::new(
+        tendermint::block::Header {
+            version: tendermint::block::header::Version {
+                block: 1,
+                app: 1,
+            },
+            chain_id: chain.try_into().unwrap(),
+            height: height.into(),
+            time: wire_timestamp(),
+            last_block_id: None,
+            last_commit_hash: None,
+            data_hash: None,
+            validators_hash: tendermint::Hash::Sha256([0; 32]),
+            next_validators_hash: tendermint::Hash::Sha256([0; 32]),
+            consensus_hash: tendermint::Hash::Sha256([0; 32]),
+            app_hash: tendermint::AppHash::default(),
+            last_results_hash: None,
+            evidence_hash: None,
+            proposer_address: tm_address(&validator_key(Who::Index(0))),
+        },
+        commit,
+    )
+    .unwrap()
+}
+
+fn hex16(bytes: &[u8]) -> String {
+    hex::encode(&bytes[..8.min(bytes.len())])
+}
+
+fn tx_digest<T: AsRef<[u8]>>(txs: &[T]) -> String {
+    let mut hasher = Sha256::new();
+    for tx in txs {
+        let tx = tx.as_ref();
+        hasher.update(u32::try_from(tx.len()).unwrap().to_le_bytes());
+        hasher.update(tx);
+    }
+    hex16(&hasher.finalize())
+}
+
+fn variant_name(err: &impl std::fmt::Debug) -> String {
+    let dbg = format!("{err:?}");
+    dbg.split([' ', '{', '(']).next().unwrap_or("").to_string()
+}
+
+// ---------------------------------------------------------------------------------------------
+// ops
+// ---------------------------------------------------------------------------------------------
+
+fn op_commit(args: &Args<'_>, out: &Out) -> HarnessResult {
+    let h: u32 = args.num("h")?;
+    let vh: u32 = args.num("vh")?;
+    let chain = args.get("chain")?;
+    let powers = parse_powers(args.get("vals")?)?;
+    let sigs = parse_sigs(args.get("sigs")?)?;
+    let chain_id =
+        tendermint::chain::Id::try_from(chain).map_err(|_| format!("bad-chain:{chain}"))?;
+
+    let validator_set = make_validator_set(vh, &powers)?;
+    let commit = make_commit(h, [7; 32], chain, &sigs, tendermint::Time::unix_epoch());
+    match ensure_commit_has_quorum(&commit, &validator_set, &chain_id) {
+        Ok(()) => out.line("commit ok"),
+        Err(err) => out.line(format!("commit err={}", variant_name(&err))),
+    }
+    Ok(())
+}
+
+fn mount_height(
+    case: &mut Case,
+    k: u32,
+    chain: &str,
+    powers: &[u64],
+    sigs: &[SigEntry],
+    hash: [u8; 32],
+) -> HarnessResult {
+    let commit = make_commit(k, hash, chain, sigs, wire_timestamp());
+    let signed_header = make_signed_header(k, chain, commit);
+    let commit_response = commit::Response {
+        signed_header,
+        canonical: true,
+    };
+    let validators_response = make_validator_set(k, powers)?;
+    let entry = MockHeight {
+        commit: serde_json::to_value(&commit_response)
+            .map_err(|e| format!("serialize-commit:{e}"))?,
+        validators: serde_json::to_value(&validators_response)
+            .map_err(|e| format!("serialize-validators:{e}"))?,
+    };
+    case.table
+        .lock()
+        .unwrap_or_else(std::sync::PoisonError::into_inner)
+        .insert(u64::from(k), entry);
+    if case.chain.is_none() {
+        case.chain = Some(chain.to_string());
+    }
+    Ok(())
+}
+
+fn op_seqblock(case: &mut Case, args: &Args<'_>, out: &Out) -> HarnessResult {
+    let k: u32 = args.num("k")?;
+    let chain = args.get("chain")?;
+    let powers = parse_powers(args.get("vals")?)?;
+    let sigs = parse_sigs(args.get("sigs")?)?;
+    let hash_byte = match args.opt("hashseed") {
+        Some(b) => parse_byte(b)?,
+        None => k as u8,
+    };
+
+    let mut sequence_data = Vec::new();
+    for spec in parse_list(args.get("data")?) {
+        let (r, n) = spec
+            .split_once(':')
+            .ok_or_else(|| format!("bad-data:{spec}"))?;
+        let rollup_id = parse_rollup(r)?;
+        let n: u32 = n.parse().map_err(|_| format!("bad-data:{spec}"))?;
+        for j in 0..n {
+            sequence_data.push((rollup_id, format!("tx-{k}-{r}-{j}").into_bytes()));
+        }
+    }
+
+    let block = ConfigureSequencerBlock {
+        block_hash: Some(block::Hash::new([hash_byte; 32])),
+        chain_id: Some(chain.to_string()),
+        height: k,
+        sequence_data,
+        unix_timestamp: (1i64, 0u32).into(),
+        signing_key: Some(SigningKey::from([0xA5; 32])),
+        proposer_address: None,
+        ..Default::default()
+    }
+    .make();
+    let hash = block.block_hash().get();
+
+    let (metadata, rollup_data) = block.split_for_celestia();
+    let info = BlockInfo {
+        hash,
+        metadata: metadata.into_raw(),
+        rollup_data: rollup_data
+            .into_iter()
+            .map(|d| (*d.rollup_id().as_bytes(), d.into_raw()))
+            .collect(),
+    };
+
+    mount_height(case, k, chain, &powers, &sigs, hash)?;
+    case.blocks.insert(u64::from(k), info);
+    out.line(format!("seqblock k={k} hash={}", hex16(&hash)));
+    Ok(())
+}
+
+fn op_seqcommit(case: &mut Case, args: &Args<'_>, out: &Out) -> HarnessResult {
+    let k: u32 = args.num("k")?;
+    let chain = args.get("chain")?;
+    let powers = parse_powers(args.get("vals")?)?;
+    let sigs = parse_sigs(args.get("sigs")?)?;
+    let hash = [parse_byte(args.get("hash")?)?; 32];
+    mount_height(case, k, chain, &powers, &sigs, hash)?;
+    out.line(format!("seqcommit k={k} hash={}", hex16(&hash)));
+    Ok(())
+}
+
+fn op_honest(case: &Case, args: &Args<'_>, out: &Out) -> HarnessResult {
+    let k: u64 = args.num("k")?;
+    let rollup = parse_rollup(args.get("rollup")?)?;
+    let block = case
+        .blocks
+        .get(&k)
+        .ok_or_else(|| format!("no-block:b{k}"))?;
+    let empty = Vec::new();
+    let txs = block
+        .rollup_data
+        .get(rollup.as_bytes())
+        .map_or(&empty, |d| &d.transactions);
+    out.line(format!(
+        "honest h={k} hash={} ntx={} txs={}",
+        hex16(&block.hash),
+        txs.len(),
+        tx_digest(txs),
+    ));
+    Ok(())
+}
+
+/// One blob to be placed into the header or rollup blob vector of `RawBlobs`.
+enum BlobSpec {
+    MetadataList(Vec<RawSubmittedMetadata>),
+    RollupDataList(Vec<RawSubmittedRollupData>),
+    /// (namespace, bytes as they are put into the blob)
+    Raw(Namespace, Vec<u8>),
+    /// a well-formed metadata list under a foreign namespace
+    WrongNs(Vec<RawSubmittedMetadata>),
+}
+
+fn parse_block_ref(s: &str, prefix: char) -> Result<u64, String> {
+    s.strip_prefix(prefix)
+        .and_then(|n| n.parse::<u64>().ok())
+        .ok_or_else(|| format!("bad-item:{s}"))
+}
+
+fn build_metadata_item(case: &Case, item: &str) -> Result<RawSubmittedMetadata, String> {
+    let mut parts = item.split('!');
+    let base = parts.next().unwrap_or("");
+    let k = parse_block_ref(base, 'm')?;
+    let mut raw = case
+        .blocks
+        .get(&k)
+        .ok_or_else(|| format!("no-block:b{k}"))?
+        .metadata
+        .clone();
+    for tamper in parts {
+        if let Some(b) = tamper.strip_prefix("hash=") {
+            raw.block_hash = Bytes::from(vec![parse_byte(b)?; 32]);
+        } else if let Some(chain) = tamper.strip_prefix("chain=") {
+            raw.header
+                .as_mut()
+                .ok_or("metadata-without-header")?
+                .chain_id = chain.to_string();
+        } else if let Some(n) = tamper.strip_prefix("height=") {
+            raw.header.as_mut().ok_or("metadata-without-header")?.height =
+                n.parse::<u64>().map_err(|_| format!("bad-tamper:{tamper}"))?;
+        } else {
+            return Err(format!("bad-tamper:{tamper}"));
+        }
+    }
+    Ok(raw)
+}
+
+fn build_rollup_item(case: &Case, item: &str) -> Result<RawSubmittedRollupData, String> {
+    let mut parts = item.split('!');
+    let base = parts.next().unwrap_or("");
+    let (blk, r) = base
+        .split_once(':')
+        .ok_or_else(|| format!("bad-item:{item}"))?;
+    let k = parse_block_ref(blk, 'd')?;
+    let rollup = parse_rollup(r)?;
+    let mut raw = case
+        .blocks
+        .get(&k)
+        .ok_or_else(|| format!("no-block:b{k}"))?
+        .rollup_data
+        .get(rollup.as_bytes())
+        .ok_or_else(|| format!("no-rollup-data:b{k}:{r}"))?
+        .clone();
+    for tamper in parts {
+        match tamper {
+            "flip" => {
+                if let Some(first) = raw.transactions.first_mut() {
+                    let mut bytes = first.to_vec();
+                    if let Some(b) = bytes.first_mut() {
+                        *b ^= 0x01;
+                    }
+                    *first = Bytes::from(bytes);
+                }
+            }
+            "drop" => {
+                raw.transactions.pop();
+            }
+            "dup" => {
+                if let Some(first) = raw.transactions.first().cloned() {
+                    raw.transactions.insert(1, first);
+                }
+            }
+            "swap" => {
+                if raw.transactions.len() >= 2 {
+                    raw.transactions.swap(0, 1);
+                }
+            }
+            "append" => raw.transactions.push(Bytes::from_static(b"extra")),
+            "ppath+" | "ppath-" | "ppath1" => {
+                let proof = raw.proof.as_mut().ok_or("rollup-data-without-proof")?;
+                let mut path = proof.audit_path.to_vec();
+                match tamper {
+                    "ppath+" => path.extend_from_slice(&[0xAB; 32]),
+                    "ppath-" => path.truncate(path.len().saturating_sub(32)),
+                    _ => path.push(0xAB),
+                }
+                proof.audit_path = Bytes::from(path);
+            }
+            _ => {
+                if let Some(r2) = tamper.strip_prefix("rid=") {
+                    raw.rollup_id = Some(parse_rollup(r2)?.into_raw());
+                } else if let Some(k2) = tamper.strip_prefix("blk=") {
+                    let k2 = k2
+                        .parse::<u64>()
+                        .map_err(|_| format!("bad-tamper:{tamper}"))?;
+                    let other = case
+                        .blocks
+                        .get(&k2)
+                        .ok_or_else(|| format!("no-block:b{k2}"))?;
+                    raw.sequencer_block_hash = Bytes::copy_from_slice(&other.hash);
+                } else if let Some(v) = tamper.strip_prefix("pidx=") {
+                    raw.proof
+                        .as_mut()
+                        .ok_or("rollup-data-without-proof")?
+                        .leaf_index = v.parse::<u64>().map_err(|_| format!("bad-tamper:{tamper}"))?;
+                } else if let Some(v) = tamper.strip_prefix("psize=") {
+                    raw.proof
+                        .as_mut()
+                        .ok_or("rollup-data-without-proof")?
+                        .tree_size = v.parse::<u64>().map_err(|_| format!("bad-tamper:{tamper}"))?;
+                } else {
+                    return Err(format!("bad-tamper:{tamper}"));
+                }
+            }
+        }
+    }
+    Ok(raw)
+}
+
+/// Turns the `items=` description into the ordered header / rollup blob specs.
+fn build_blob_specs(
+    case: &Case,
+    items: &str,
+    sequencer_namespace: Namespace,
+    rollup_namespace: Namespace,
+) -> Result<(Vec<BlobSpec>, Vec<BlobSpec>), String> {
+    let mut header_specs: Vec<BlobSpec> = Vec::new();
+    let mut rollup_specs: Vec<BlobSpec> = Vec::new();
+    // index of the currently open list blob in the respective vector
+    let mut open_meta: Option<usize> = None;
+    let mut open_rollup: Option<usize> = None;
+
+    // `a|b` is the same as `a,|,b`
+    let mut tokens: Vec<&str> = Vec::new();
+    for tok in parse_list(items) {
+        let mut first = true;
+        for piece in tok.split('|') {
+            if !first {
+                tokens.push("|");
+            }
+            first = false;
+            if !piece.is_empty() {
+                tokens.push(piece);
+            }
+        }
+    }
+
+    for tok in tokens {
+        if tok == "|" {
+            open_meta = None;
+            open_rollup = None;
+        } else if let Some(which) = tok.strip_prefix("garbage:") {
+            let bytes = vec![0x5A; 50];
+            match which {
+                "meta" => header_specs.push(BlobSpec::Raw(sequencer_namespace, bytes)),
+                "rollup" => rollup_specs.push(BlobSpec::Raw(rollup_namespace, bytes)),
+                _ => return Err(format!("bad-item:{tok}")),
+            }
+        } else if let Some(which) = tok.strip_prefix("badproto:") {
+            // ten 0xFF bytes are an over-long varint: not decodable as a protobuf field key
+            let bytes = compress_bytes(&[0xFF; 32]).map_err(|e| format!("compress:{e}"))?;
+            match which {
+                "meta" => header_specs.push(BlobSpec::Raw(sequencer_namespace, bytes)),
+                "rollup" => rollup_specs.push(BlobSpec::Raw(rollup_namespace, bytes)),
+                _ => return Err(format!("bad-item:{tok}")),
+            }
+        } else if let Some(inner) = tok.strip_prefix("wrongns:") {
+            header_specs.push(BlobSpec::WrongNs(vec![build_metadata_item(case, inner)?]));
+        } else if tok.starts_with('m') {
+            let raw = build_metadata_item(case, tok)?;
+            let idx = *open_meta.get_or_insert_with(|| {
+                header_specs.push(BlobSpec::MetadataList(Vec::new()));
+                header_specs.len() - 1
+            });
+            if let BlobSpec::MetadataList(list) = &mut header_specs[idx] {
+                list.push(raw);
+            }
+        } else if tok.starts_with('d') {
+            let raw = build_rollup_item(case, tok)?;
+            let idx = *open_rollup.get_or_insert_with(|| {
+                rollup_specs.push(BlobSpec::RollupDataList(Vec::new()));
+                rollup_specs.len() - 1
+            });
+            if let BlobSpec::RollupDataList(list) = &mut rollup_specs[idx] {
+                list.push(raw);
+            }
+        } else {
+            return Err(format!("bad-item:{tok}"));
+        }
+    }
+    Ok((header_specs, rollup_specs))
+}
+
+/// Encodes a blob exactly like sequencer-relayer does: protobuf, then brotli, then
+/// `Blob::new(namespace, compressed, AppVersion::V3)`.
+fn encode_blob(
+    spec: BlobSpec,
+    sequencer_namespace: Namespace,
+    rollup_namespace: Namespace,
+) -> Result<Blob, String> {
+    let (namespace, data) = match spec {
+        BlobSpec::MetadataList(entries) => {
+            let encoded = SubmittedMetadataList {
+                entries,
+            }
+            .encode_to_vec();
+            (
+                sequencer_namespace,
+                compress_bytes(&encoded).map_err(|e| format!("compress:{e}"))?,
+            )
+        }
+        BlobSpec::WrongNs(entries) => {
+            let encoded = SubmittedMetadataList {
+                entries,
+            }
+            .encode_to_vec();
+            (
+                astria_core::celestia::namespace_v0_from_sha256_of_bytes(b"verif-wrong-namespace"),
+                compress_bytes(&encoded).map_err(|e| format!("compress:{e}"))?,
+            )
+        }
+        BlobSpec::RollupDataList(entries) => {
+            let encoded = SubmittedRollupDataList {
+                entries,
+            }
+            .encode_to_vec();
+            (
+                rollup_namespace,
+                compress_bytes(&encoded).map_err(|e| format!("compress:{e}"))?,
+            )
+        }
+        BlobSpec::Raw(namespace, data) => (namespace, data),
+    };
+    Blob::new(namespace, data, celestia_types::AppVersion::V3).map_err(|e| format!("blob:{e}"))
+}
+
+/// Builds a `StateReceiver` for which `next_expected_firm_sequencer_height() == firm`.
+///
+/// `next firm = sequencer_start_block_height + (firm.number - rollup_start_block_number) + 1`;
+/// with `rollup_start_block_number = 1` and `firm.number = 0` this is
+/// `sequencer_start_block_height`, which is set to `firm`.
+fn make_state_receiver(
+    firm: u64,
+    rollup_id: RollupId,
+    chain: &str,
+) -> Result<(crate::state::StateSender, crate::state::StateReceiver), String> {
+    use astria_core::{
+        execution::v2::ExecutionSession,
+        generated::astria::execution::v2 as raw,
+        Protobuf as _,
+    };
+    if firm == 0 {
+        return Err("firm-height-0-is-not-representable".to_string());
+    }
+    let block_metadata = raw::ExecutedBlockMetadata {
+        number: 0,
+        hash: hex::encode([42u8; 32]),
+        parent_hash: hex::encode([41u8; 32]),
+        timestamp: Some(pbjson_types::Timestamp {
+            seconds: 1,
+            nanos: 0,
+        }),
+        sequencer_block_hash: String::new(),
+    };
+    let session = ExecutionSession::try_from_raw(raw::ExecutionSession {
+        session_id: "verif".to_string(),
+        execution_session_parameters: Some(raw::ExecutionSessionParameters {
+            rollup_id: Some(rollup_id.into_raw()),
+            rollup_start_block_number: 1,
+            rollup_end_block_number: 0,
+            sequencer_chain_id: chain.to_string(),
+            sequencer_start_block_height: firm,
+            celestia_chain_id: "verif-celestia".to_string(),
+            celestia_search_height_max_look_ahead: 100,
+        }),
+        commitment_state: Some(raw::CommitmentState {
+            soft_executed_block_metadata: Some(block_metadata.clone()),
+            firm_executed_block_metadata: Some(block_metadata),
+            lowest_celestia_search_height: 1,
+        }),
+    })
+    .map_err(|e| format!("execution-session:{e}"))?;
+    let state = crate::state::State::try_from_execution_session(
+        &session,
+        crate::config::CommitLevel::SoftAndFirm,
+    )
+    .map_err(|e| format!("state:{e}"))?;
+    Ok(crate::state::channel(state))
+}
+
+async fn op_pipeline(case: &Case, args: &Args<'_>, out: &Out) -> HarnessResult {
+    let firm: u64 = args.num("firm")?;
+    let rollup_id = parse_rollup(args.get("rollup")?)?;
+    let chain = args
+        .opt("chain")
+        .map(str::to_string)
+        .or_else(|| case.chain.clone())
+        .unwrap_or_else(|| DEFAULT_CHAIN.to_string());
+    let items = args.get("items")?;
+
+    let rollup_namespace = astria_core::celestia::namespace_v0_from_rollup_id(rollup_id);
+    let sequencer_namespace =
+        astria_core::celestia::namespace_v0_from_sha256_of_bytes(chain.as_bytes());
+
+    let (header_specs, rollup_specs) =
+        build_blob_specs(case, items, sequencer_namespace, rollup_namespace)?;
+    let header_blobs = header_specs
+        .into_iter()
+        .map(|s| encode_blob(s, sequencer_namespace, rollup_namespace))
+        .collect::<Result<Vec<_>, _>>()?;
+    let rollup_blobs = rollup_specs
+        .into_iter()
+        .map(|s| encode_blob(s, sequencer_namespace, rollup_namespace))
+        .collect::<Result<Vec<_>, _>>()?;
+
+    let (_state_sender, state_receiver) = make_state_receiver(firm, rollup_id, &chain)?;
+    let observed_firm = state_receiver.next_expected_firm_sequencer_height().value();
+    if observed_firm != firm {
+        return Err(format!("state-firm-mismatch:{observed_firm}"));
+    }
+
+    let client = SequencerClient::new(case.server.uri().as_str())
+        .map_err(|e| format!("http-client:{e}"))?;
+    let verifier =
+        Arc::new(BlobVerifier::try_new(client, 1000).map_err(|e| format!("blob-verifier:{e}"))?);
+
+    let panics_before = PANICS.load(Ordering::SeqCst);
+
+    // ---- the code under test -----------------------------------------------------------------
+    let raw_blobs = RawBlobs {
+        celestia_height: CELESTIA_HEIGHT,
+        header_blobs,
+        rollup_blobs,
+    };
+    let converted = decode_raw_blobs(raw_blobs, rollup_namespace, sequencer_namespace);
+    out.line(format!(
+        "decoded headers={} rollups={}",
+        converted.len_headers(),
+        converted.len_rollup_data_entries(),
+    ));
+
+    let Ok(verified) = tokio::time::timeout(
+        PIPELINE_TIMEOUT,
+        verify_metadata(verifier, converted, state_receiver),
+    )
+    .await
+    else {
+        out.line("pipeline timeout");
+        return Ok(());
+    };
+    out.line(format!(
+        "verified headers={} rollups={}",
+        verified.len_header_blobs(),
+        verified.len_rollup_blobs(),
+    ));
+
+    let reconstructed = reconstruct_blocks_from_verified_blobs(verified, rollup_id);
+    // ------------------------------------------------------------------------------------------
+
+    let mut lines = reconstructed
+        .iter()
+        .map(|b| {
+            (
+                b.header.height().value(),
+                b.block_hash.get(),
+                format!(
+                    "rb h={} hash={} chain={} ntx={} txs={}",
+                    b.header.height().value(),
+                    hex16(b.block_hash.as_bytes()),
+                    b.header.chain_id().as_str(),
+                    b.transactions.len(),
+                    tx_digest(&b.transactions),
+                ),
+            )
+        })
+        .collect::<Vec<_>>();
+    lines.sort();
+    for (_, _, line) in lines {
+        out.line(line);
+    }
+
+    let swallowed = PANICS.load(Ordering::SeqCst).saturating_sub(panics_before);
+    if swallowed > 0 {
+        out.line(format!("pipeline task-panics={swallowed}"));
+    }
+    out.line("pipeline done");
+    Ok(())
+}
+
+async fn run_op(case: &mut Case, op: &str, rest: &str, out: &Out) -> HarnessResult {
+    let args = Args::parse(rest)?;
+    match op {
+        "commit" => op_commit(&args, out),
+        "seqblock" => op_seqblock(case, &args, out),
+        "seqcommit" => op_seqcommit(case, &args, out),
+        "honest" => op_honest(case, &args, out),
+        "pipeline" => op_pipeline(case, &args, out).await,
+        other => Err(format!("unknown-op:{other}")),
+    }
+}
+
+#[tokio::test(flavor = "multi_thread")]
+async fn drive() {
+    let Ok(input) = std::env::var("VERIF_IN") else {
+        return;
+    };
+    let output = std::env::var("VERIF_OUT").expect("VERIF_OUT must be set if VERIF_IN is set");
+    let script = std::fs::read_to_string(&input).expect("failed to read the VERIF_IN script");
+    let out = Out {
+        file: Mutex::new(
+            std::fs::File::create(&output).expect("failed to create the VERIF_OUT file"),
+        ),
+    };
+
+    // silent panic hook that only counts
+    std::panic::set_hook(Box::new(|_| {
+        PANICS.fetch_add(1, Ordering::SeqCst);
+    }));
+
+    let mut case = Case::new().await;
+    for line in script.lines() {
+        let line = line.trim();
+        if line.is_empty() || line.starts_with('#') {
+            continue;
+        }
+        let (op, rest) = line.split_once(char::is_whitespace).unwrap_or((line, ""));
+        if op == "case" {
+            out.line(line);
+            case = Case::new().await;
+            continue;
+        }
+        let result = AssertUnwindSafe(run_op(&mut case, op, rest, &out))
+            .catch_unwind()
+            .await;
+        match result {
+            Ok(Ok(())) => {}
+            Ok(Err(msg)) => out.line(format!("{op} err=harness:{msg}")),
+            Err(_panic) => out.line(format!("{op} panic")),
+        }
+    }
+
+    let _ = std::panic::take_hook();
+}
